@@ -784,6 +784,7 @@ VERIF_FAIL_PATTERNS = [
     r"^possible (arithmetic underflow/overflow|division by zero|bit shift underflow/overflow)",
     r"^(unreachable|panic)",
     r"^could not (prove|show) termination",
+    r"^unable to prove (post-condition|pre-condition|postcondition|precondition) of closure",
     r"^recommendation not met",
 ]
 RLIMIT_PATTERNS = [r"[Rr]esource limit", r"rlimit", r"timed? ?out", r"unknown"]
